@@ -354,7 +354,7 @@ impl World {
             }
             St::BlockedJoin(t) => self.parts[*t].state == St::Finished,
             St::Sleeping(until) => self.clock >= *until,
-            St::WaitAll => self.parts.iter().skip(1).all(|p| p.state == St::Finished),
+            St::WaitAll => self.parts.iter().filter(|p| p.state != St::WaitAll).all(|p| p.state == St::Finished),
             St::Finished => false,
         }
     }
@@ -757,6 +757,13 @@ pub fn wait_all() -> bool {
         return r.is_ok();
     }
     true
+}
+
+/// Like `wait_all`, for use from inside a run (unwinds on abort like every other operation).
+pub fn wait_all_quiet() {
+    if let Some(me) = my_pid() {
+        let _ = switch(me, St::WaitAll, OP_WAITALL, 1, 0);
+    }
 }
 
 pub fn notify() {
